@@ -99,6 +99,14 @@ def hget(hdrs, name):
     return vals[0] if len(vals) == 1 else (None if not vals else vals)
 
 
+def _shift_date(lm, seconds):
+    from email.utils import formatdate, parsedate_to_datetime
+    try:
+        return formatdate(parsedate_to_datetime(lm).timestamp() + seconds, usegmt=True)
+    except Exception:
+        return "Thu, 01 Jan 1970 00:00:00 GMT"
+
+
 def execute(ctx, env, case, resp=None):
     """case: iface, size, ext, chunk, range (str|None), if_range (kind), method; resp = an already used response object (reuse)"""
     iface, size, chunk, method = case["iface"], case["size"], case["chunk"], case["method"]
@@ -118,7 +126,8 @@ def execute(ctx, env, case, resp=None):
     kind = case["if_range"]
     ifr = {None: None, "etag": etag, "stale-etag": '"0123456789abcdef0123456789abcdef01234567"',
            "weak-etag": "W/" + (etag or '""'), "last-modified": lm, "other-date": "Wed, 21 Oct 2015 07:28:00 GMT",
-           "garbage": "garbage", "empty": "", "unquoted-etag": (etag or "").strip('"')}[kind]
+           "garbage": "garbage", "empty": "", "unquoted-etag": (etag or "").strip('"'),
+           "later-date": "Fri, 01 Jan 2100 00:00:00 GMT", "lm-plus-1s": _shift_date(lm, 1), "lm-minus-1s": _shift_date(lm, -1)}[kind]
     if ifr is not None:
         headers.append(("If-Range", ifr))
 
@@ -283,7 +292,7 @@ def gen_cases(ctx, rng):
                     ifr_kinds = [None]
                     if rh is not None and rng.random() < 0.25:
                         ifr_kinds.append(rng.choice(["etag", "stale-etag", "weak-etag", "last-modified", "other-date",
-                                                     "garbage", "empty", "unquoted-etag"]))
+                                                     "garbage", "empty", "unquoted-etag", "later-date", "lm-plus-1s", "lm-minus-1s"]))
                     for kind in ifr_kinds:
                         for method in (("GET", "HEAD") if rng.random() < 0.3 else ("GET",)):
                             c = {"iface": iface, "size": size, "chunk": chunk, "range": rh, "if_range": kind,
